@@ -74,17 +74,6 @@ pub fn input_bytes(i: &Input) -> Vec<u8> {
     }
 }
 
-fn trace_dispatch() -> &'static tracing::Dispatch {
-    static D: std::sync::OnceLock<tracing::Dispatch> = std::sync::OnceLock::new();
-    D.get_or_init(|| {
-        let sub = tracing_subscriber::fmt()
-            .with_max_level(tracing::Level::TRACE)
-            .with_writer(std::io::sink)
-            .finish();
-        tracing::Dispatch::new(sub)
-    })
-}
-
 const D6_SIG: &str = "c01-policing-nonrequest-panic";
 const D6_TEXT: &str = "An error response message was attempted to be created from a non-request message";
 
@@ -337,8 +326,8 @@ fn exercise(bytes: &[u8], c: &Case, st: &mut Stats, phase: &'static str) -> Resu
 fn test(c: &Case, st: &mut Stats) -> TestResult {
     st.eval();
     let bytes = input_bytes(&c.input);
-    let accepted = exercise(&bytes, c, st, "no tracing subscriber")?;
-    let accepted2 = tracing::dispatcher::with_default(trace_dispatch(), || exercise(&bytes, c, st, "TRACE subscriber installed"))?;
+    let accepted = maybe_traced(false, || exercise(&bytes, c, st, "tracing switched off"))?;
+    let accepted2 = maybe_traced(true, || exercise(&bytes, c, st, "TRACE subscriber active"))?;
     let _ = accepted2;
     let class = match &c.input {
         Input::Raw { .. } => "raw bytes",
